@@ -4,6 +4,8 @@ SPEC = {
     "pkg": "c07",
     "tests": [
         {"name": "TestDecode", "quick": 6000, "thorough": 480000, "shards_quick": 4, "shards_thorough": 16, "timeout": 1800},
+        # long files: entry counts at / one off a power of two (63..4097) and free counts 1025..5000, cheap entries
+        {"name": "TestDecodeMany", "quick": 480, "thorough": 9600, "shards_quick": 4, "shards_thorough": 16, "timeout": 1800},
     ],
     # thorough tier: coverage-guided campaign over the same generator + oracle (rapid.MakeFuzz)
     "fuzz": [{"name": "FuzzModel", "seconds": 90}],
@@ -18,7 +20,15 @@ SPEC = {
              "is decoded through both reading paths. One case in two configures 1-3 default headers (unique names from the pool of the "
              "file's own header names, Host among them) through the documented provider option `headers` (list of '[Name: value]' strings) for all four formats; the model "
              "gives them the lowest priority ('Headers in ammo file have priority'). Non-trivial = >= 2 entries and (a layout knob on, "
-             "or a directive after the first entry, or a binary body); distinct = hash of the case."),
+             "or a directive after the first entry, or a binary body); distinct = hash of the case. "
+             "TestDecodeMany - long files: a generated base of 1-6 such entries (with its layout, directives and `headers` defaults) is repeated, every repeated entry "
+             "made distinct by a leading path segment, up to an entry COUNT that is the generated dimension: a power of two from 64 to 4096 or one below / above it "
+             "(63-65, ..., 255-257, ..., 1023-1025, ..., 4095-4097) in one case of two, a free count between 1025 and 5000 otherwise; all four formats (uri twice as often, "
+             "one uri case in three through the inline `uris` option), streamed in two cases of three and preloaded otherwise, 1-3 passes (two or more in three cases of four), "
+             "1-4 ammo held at once; uri / uripost files get, in three cases of four, an in-file '[X-Seg: k]' line before every 1st / 7th / 64th / 100th / 333rd / 1000th entry "
+             "(header lines scattered through the whole length of the file), files whose base has blank lines get one every 2 / 9 / 50 / 1000 items. The same model judges "
+             "every item of every pass, so a pass that ends early or late or restarts anywhere but at entry 0 fails at the first wrong item. Non-trivial there = several passes, "
+             "or a layout knob on, or scattered header lines."),
     "floors": {"TestDecode/no_final_newline": 0.079, "TestDecode/uripost_zero_body": 0.08, "TestDecode/mid_file_directive": 0.15,
                "TestDecode/json_array": 0.02, "TestDecode/json_pretty": 0.02, "TestDecode/crlf": 0.05, "TestDecode/multi_pass": 0.4,
                "TestDecode/uripost_last_line_unterminated": 0.0013,
@@ -39,7 +49,19 @@ SPEC = {
                "TestDecode/config_header_value_ends_with_bracket_uripost": 0.025, "TestDecode/config_header_value_ends_with_bracket_raw": 0.02,
                "TestDecode/config_header_value_ends_with_bracket_jsonline": 0.02, "TestDecode/config_header_value_ends_with_bracket_run": 0.045,
                "TestDecode/config_header_value_with_colon": 0.08, "TestDecode/config_header_host_ipv6_literal_without_port": 0.008,
-               "TestDecode/config_header_overridden_for_some_entries": 0.08, "TestDecode/entry_header_value_ends_with_bracket": 0.15},
+               "TestDecode/config_header_overridden_for_some_entries": 0.08, "TestDecode/entry_header_value_ends_with_bracket": 0.15,
+               # long files (TestDecodeMany): entry counts around powers of two / above 1024, per format and reading path
+               "TestDecodeMany/many_above_1024_multi_pass_streamed": 0.13, "TestDecodeMany/many_above_1024_multi_pass_streamed_uri": 0.06,
+               "TestDecodeMany/many_above_1024_multi_pass_streamed_uripost": 0.015, "TestDecodeMany/many_above_1024_multi_pass_streamed_raw": 0.02,
+               "TestDecodeMany/many_above_1024_multi_pass_streamed_jsonline": 0.015,
+               "TestDecodeMany/many_above_1024_multi_pass_streamed_inline_uris": 0.02, "TestDecodeMany/many_above_1024_multi_pass_streamed_segment_headers": 0.06,
+               "TestDecodeMany/many_above_1024_multi_pass_preload": 0.07, "TestDecodeMany/many_above_1024_uri": 0.13,
+               "TestDecodeMany/many_above_1024_uripost": 0.045, "TestDecodeMany/many_above_1024_raw": 0.04, "TestDecodeMany/many_above_1024_jsonline": 0.035,
+               "TestDecodeMany/many_255_to_257": 0.025, "TestDecodeMany/many_1023_to_1025": 0.04, "TestDecodeMany/many_4095_to_4097": 0.02,
+               "TestDecodeMany/many_power_of_two": 0.06, "TestDecodeMany/many_one_below_power_of_two": 0.07, "TestDecodeMany/many_one_above_power_of_two": 0.07,
+               "TestDecodeMany/many_around_power_of_two_multi_pass": 0.19, "TestDecodeMany/many_free_count": 0.2,
+               "TestDecodeMany/many_inline_uris": 0.08, "TestDecodeMany/many_segment_headers": 0.2, "TestDecodeMany/many_segment_headers_uripost": 0.05,
+               "TestDecodeMany/many_preload": 0.17, "TestDecodeMany/many_blank_lines_throughout": 0.15, "TestDecodeMany/many_json_array": 0.004},
     "manifest": {
         "technique": "model-based property testing (rapid): render a generated request model into each ammo format, decode with the real provider, compare; metamorphic over layout",
         "text": ("Each generated model is the oracle for the file rendered from it: the k-th delivered ammo must equal entry k mod E "
@@ -48,7 +70,9 @@ SPEC = {
                  "between that colon and the closing bracket of the line, blanks around both trimmed, so brackets and colons inside the value, also as its last "
                  "or first characters, arrive as written; `headers` defaults apply to every entry for which the file defines no header of that name, a default Host "
                  "to entries without a Host of their own), exactly passes*E items are delivered, then end of ammo and Run returns nil. Layout variants of the same "
-                 "model must not change anything, and neither does reading the file with `preload: true`: the same model judges the streamed and the preloaded provider."),
+                 "model must not change anything, and neither does reading the file with `preload: true`: the same model judges the streamed and the preloaded provider. "
+                 "Nor does the length of the file: TestDecodeMany applies the same oracle to files and inline `uris` lists of 63 to 5000 entries (counts at and one off the powers of two, "
+                 "free counts above 1024, in-file header lines scattered through the whole file) read for up to three passes - every pass must deliver the whole file, in order."),
         "note": ("URIs are restricted to characters net/url transmits verbatim; tags do not start/end with blanks (the one space after the URI / size delimits the tag, everything after it up to the trimmed line end is tag text, as is a JSON string); http/json bodies are "
                  "valid UTF-8; header names compared canonically; Content-Length may appear in raw requests."),
     },
